@@ -220,10 +220,12 @@ def run_sess(shard, tier, acc):
         if td is None:
             td = tree.scratch_tree()
         R.write_ruleset(os.path.join(td, 'Rules', 'v'), spec)
-        fails = explore_session(td, spec, acc)
-        case = {'kind': 'sess', 'spec': spec}
-        for m in fails:
-            acc.fail(case, m, sig='sess:' + signature(m))
+        # the flags of the first run are stored in the .sav; the resumed runs are started WITHOUT them and must continue the flagged stream
+        for flags in FLAGSETS:
+            fails = explore_session(td, spec, acc, flags)
+            case = {'kind': 'sess', 'spec': spec, 'flags': list(flags)}
+            for m in fails:
+                acc.fail(case, ('[%s] ' % ' '.join(flags) if flags else '') + m, sig='sess:' + signature(m))
         acc.sample({'kind': 'session', 'grammar': spec['grammar']}, cap=1)
     if td:
         tree.rmtree(td)
@@ -233,10 +235,13 @@ def pt_events(run):
     return [e[1] for e in run.events if e[0] == 'pt']
 
 
-def explore_session(td, spec, acc):
+FLAGSETS = [(), ('--skip_brute',), ('--all_lower',), ('--skip_brute', '--all_lower')]
+
+
+def explore_session(td, spec, acc, flags=()):
     """BFS over saved states reached through real runs; state = canonical .sav."""
     fails = []
-    types, base = R.ref_loaded(spec)
+    types, base = R.ref_loaded(spec, '--skip_brute' in flags, '--all_lower' in flags)
     tp = {t: [p for p, _ in g] for t, g in types.items()}
     mult = Counter()
     probs = {}
@@ -246,7 +251,7 @@ def explore_session(td, spec, acc):
             mult[pt] += 1
             probs[pt] = R.float_product(bp, [tp[t][i] for t, i in pt])
     S.clear_session(td)
-    U = S.run_guesser(td, ['-r', 'v'])
+    U = S.run_guesser(td, ['-r', 'v'] + list(flags))
     acc.evals += 1
     if U.exc:
         return ['harness: uninterrupted run raised %s' % U.exc]
@@ -262,7 +267,7 @@ def explore_session(td, spec, acc):
         # all quit moments from this state
         for j in range(0, total_guesses + 1):
             S.set_session(td, sav_raw, None)
-            argv = ['-r', 'v'] + (['--load'] if sav_raw is not None else [])
+            argv = ['-r', 'v'] + (['--load'] if sav_raw is not None else list(flags))
             A = S.run_guesser(td, argv, quit_after=j)
             acc.evals += 1
             acc.transitions += 1
@@ -337,6 +342,6 @@ def replay(case):
     td = tree.scratch_tree()
     R.write_ruleset(os.path.join(td, 'Rules', 'v'), spec)
     from ..runner import Acc
-    fails = explore_session(td, spec, Acc())
+    fails = explore_session(td, spec, Acc(), tuple(case.get('flags', ())))
     tree.rmtree(td)
     return '; '.join(fails[:3]) if fails else None
